@@ -229,6 +229,13 @@ def _once(case, acc, nodes):
     fresh.write(start, first)
     if first.getvalue() != expected_written:
         raise Violation("write-text", "write() as the first call on a new exporter emitted %r, expected %r" % (first.getvalue()[:300], expected_written[:300]))
+    # ... and the calls that follow the first write() on the same exporter (its options are still the same)
+    if fresh.export(start) != text:
+        raise Violation("export-text", "export() after a write() on the same exporter gives %r, before it gave %r" % (fresh.export(start)[:300], text[:300]))
+    second = io.StringIO()
+    fresh.write(start, second)
+    if second.getvalue() != expected_written:
+        raise Violation("write-text", "the second write() of an exporter emitted %r, the first %r" % (second.getvalue()[:300], expected_written[:300]))
     # a long-lived exporter whose public options are changed between two calls: kwargs edited in place, maxlevel re-assigned
     if not case.get("encoder"):
         edited = dict(kwargs)
@@ -259,10 +266,24 @@ def _once(case, acc, nodes):
         ikw["object_pairs_hook"] = collections.OrderedDict
     dictimporter = DictImporter(nodecls=nodecls) if (case["cls"] != "AnyNode" or case.get("explicit_importer")) else None
     importer = JsonImporter(dictimporter=dictimporter, **ikw)
-    for how in ("import_", "read", "import_", "read-after-header", "import_"):
+    hows = ["import_", "read", "import_", "read-after-header", "import_"]
+    if not case.get("encoder"):
+        try:
+            text.encode("utf-8")
+            # documents handed over as BYTES (json.loads / json.load detect UTF-8, UTF-16 and UTF-32 themselves), also through
+            # a binary file handle
+            hows += ["bytes:utf-8", "bytes:utf-16", "bytes:utf-32-le", "binary-read:utf-16-be", "bytearray:utf-8"]
+        except UnicodeEncodeError:
+            pass
+    for how in hows:
         if how == "read-after-header":
             framed.seek(mark)
             root = importer.read(framed)
+        elif ":" in how:
+            form, encoding = how.split(":")
+            data = text.encode(encoding)
+            root = importer.read(io.BytesIO(data)) if form == "binary-read" else importer.import_(bytearray(data) if form == "bytearray" else data)
+            acc.tag("documents_given_as_bytes")
         else:
             root = importer.import_(text) if how == "import_" else importer.read(io.StringIO(text))
         compare_tree(root, ref, nodecls, case["sort_keys"])
